@@ -342,9 +342,11 @@ def run(M, rec, tier, seed, k, n):
             rec.count("long_link_networks")
         else:
             _, desc = g.network(shape)
-        if rng.random() < 0.5:
-            # random construction order => the live enumeration differs from the description order
-            pass
+        if it % 4 != 0 and rng.random() < 0.15:
+            # user-defined origin / link kinds (README "Extensions"), e.g. a link that hands its results
+            # back in another key order: arguments and results still follow the element's state order
+            if G.add_user_kinds(desc, rng):
+                rec.count("networks_with_user_defined_element_kinds")
         pars = g.pars()
         rec.seen("net_signatures", D.signature(desc))
         clashing = False
